@@ -48,7 +48,8 @@ fn sep(rng: &mut Rng, style: u8, must: bool) -> String {
         // comments after tokens
         6 => {
             if rng.chance(1, 3) {
-                format!(" {}{}", rng.pick(COMMENTS), rng.pick(EOLS))
+                // a comment also ends the token before it: no blank is needed in front of `#`
+                format!("{}{}{}", if rng.chance(1, 2) { " " } else { "" }, rng.pick(COMMENTS), rng.pick(EOLS))
             } else if must {
                 " ".into()
             } else {
@@ -57,12 +58,14 @@ fn sep(rng: &mut Rng, style: u8, must: bool) -> String {
         }
         // random mixture with blank lines
         _ => {
-            let n = rng.range(if must { 1 } else { 0 }, 4);
+            let comment = rng.chance(1, 6);
+            // a comment with its line end separates two words as well as a blank does
+            let n = rng.range(if must && !comment { 1 } else { 0 }, 4);
             let mut s = String::new();
             for _ in 0..n {
                 s.push_str(rng.pick(&[" ", "  ", "\t", "\n", "\n\n", "\r\n", "\r", "\u{c}", " \n "]));
             }
-            if rng.chance(1, 6) {
+            if comment {
                 s.push_str(&format!("{}{}", rng.pick(COMMENTS), rng.pick(EOLS)));
             }
             s
